@@ -19,14 +19,21 @@ type ParserData struct {
 	loopInfo      []struct {
 		continueIndex int
 		breakIndex    int
+		blockDepth    int // 进入循环体时已打开的 block 层数(含循环自身的)
+		fstrDepth     int // 进入循环体时已打开的 fstr block 层数
 	}
-	loopLayer int // 当前loop层数
+	loopLayer  int // 当前loop层数
+	blockDepth int // 当前代码段内已 block.push 尚未 block.pop 的层数
+	fstrDepth  int // 当前代码段内已 fstr.block.push 尚未 fstr.block.pop 的层数
 	// 指令数量超出上限，多余的指令已被丢弃，解析结束后必须报错
 	codeOverflow bool
 	codeStack    []struct {
-		code    []ByteCode
-		index   int
-		textPos int
+		code       []ByteCode
+		index      int
+		textPos    int
+		loopLayer  int
+		blockDepth int
+		fstrDepth  int
 	}
 }
 
@@ -47,7 +54,9 @@ func (e *ParserData) LoopBegin() {
 	e.loopInfo = append(e.loopInfo, struct {
 		continueIndex int
 		breakIndex    int
-	}{continueIndex: len(e.continueStack), breakIndex: len(e.breakStack)})
+		blockDepth    int
+		fstrDepth     int
+	}{continueIndex: len(e.continueStack), breakIndex: len(e.breakStack), blockDepth: e.blockDepth, fstrDepth: e.fstrDepth})
 }
 
 func (e *ParserData) LoopEnd() {
@@ -94,7 +103,29 @@ func (e *ParserData) AddOp(operator CodeType) {
 	if operator == typeJne || operator == typeJmp {
 		val = IntType(0)
 	}
+	switch operator {
+	case typeBlockPush:
+		e.blockDepth++
+	case typeBlockPop:
+		e.blockDepth--
+	case typeFStringBlockPush:
+		e.fstrDepth++
+	case typeFStringBlockPop:
+		e.fstrDepth--
+	}
 	e.WriteCode(operator, val)
+}
+
+// unwindToLoop 在 break/continue 跳转前，关闭循环体内部已打开的语句块(if、模板块)，
+// 否则跳转后虚拟机的块栈会比循环入口多出几层，每次跳转泄漏一层
+func (p *ParserData) unwindToLoop() {
+	info := p.loopInfo[len(p.loopInfo)-1]
+	for i := p.blockDepth; i > info.blockDepth; i-- {
+		p.WriteCode(typeBlockPop, nil)
+	}
+	for i := p.fstrDepth; i > info.fstrDepth; i-- {
+		p.WriteCode(typeFStringBlockPop, nil)
+	}
 }
 
 func (e *ParserData) AddLoadName(value string) {
@@ -185,6 +216,7 @@ func (p *ParserData) ContinuePush() error {
 		if p.continueStack == nil {
 			p.continueStack = []IntType{}
 		}
+		p.unwindToLoop()
 		p.AddOp(typeJmp)
 		p.continueStack = append(p.continueStack, IntType(p.codeIndex)-1)
 	} else {
@@ -219,6 +251,7 @@ func (p *ParserData) BreakPush() error {
 		if p.breakStack == nil {
 			p.breakStack = []IntType{}
 		}
+		p.unwindToLoop()
 		p.AddOp(typeJmp)
 		p.breakStack = append(p.breakStack, IntType(p.codeIndex)-1)
 		return nil
@@ -363,12 +396,19 @@ func (p *ParserData) AddAttrSet(objName string, attr string, isRaw bool) {
 
 func (p *ParserData) CodePush(textPos int) {
 	p.codeStack = append(p.codeStack, struct {
-		code    []ByteCode
-		index   int
-		textPos int
-	}{code: p.code, index: p.codeIndex, textPos: textPos})
+		code       []ByteCode
+		index      int
+		textPos    int
+		loopLayer  int
+		blockDepth int
+		fstrDepth  int
+	}{code: p.code, index: p.codeIndex, textPos: textPos, loopLayer: p.loopLayer, blockDepth: p.blockDepth, fstrDepth: p.fstrDepth})
 	p.code = make([]ByteCode, 256)
 	p.codeIndex = 0
+	// 函数体、computed 是独立的代码段: 其中的 break/continue 不能指向外层循环
+	p.loopLayer = 0
+	p.blockDepth = 0
+	p.fstrDepth = 0
 }
 
 func (p *ParserData) CodePop() ([]ByteCode, int, int) {
@@ -379,5 +419,8 @@ func (p *ParserData) CodePop() ([]ByteCode, int, int) {
 	p.codeStack = p.codeStack[:last]
 	p.code = info.code
 	p.codeIndex = info.index
+	p.loopLayer = info.loopLayer
+	p.blockDepth = info.blockDepth
+	p.fstrDepth = info.fstrDepth
 	return lastCode, lastIndex, info.textPos
 }
